@@ -477,6 +477,8 @@ def main(ctx: Ctx) -> None:
     jobs = [(i, i * 7919 + 1, cfgs[i % 4], nsteps) for i in range(nh)]
     scripted = B.scripted_histories()
     sjobs = [(f"s-{name}", cfgs[(i + ctx.seed) % 4], ws) for i, (name, ws) in enumerate(scripted)]
+    # histories whose point is what a *stored* value looks like after reload run on every store x format
+    sjobs += [(f"s-{name}-{c}", c, ws) for (name, ws) in scripted if name in ("final-constant",) for c in cfgs if ctx.quick()]
     if not ctx.quick():
         sjobs = [(f"s-{name}-{c}", c, ws) for (name, ws) in scripted for c in cfgs]
     corpus = []
